@@ -9,6 +9,7 @@ pub mod c13b;
 pub mod c20;
 pub mod c11;
 pub mod envelope_props;
+pub mod model_props;
 
 pub fn run(args: &Args) -> ! {
     match args.property.as_str() {
@@ -17,6 +18,10 @@ pub fn run(args: &Args) -> ! {
         "C09" => envelope_props::run_c09(args),
         "C10" => envelope_props::run_c10(args),
         "C11" => c11::run(args),
+        "C04" => model_props::run_c04(args),
+        "C07" => model_props::run_c07(args),
+        "C15" => model_props::run_c15(args),
+        "C16" => model_props::run_c16(args),
         "C20" => c20::run(args),
         p => {
             eprintln!("INFRA: unknown property '{}'", p);
@@ -44,6 +49,7 @@ pub fn replay_one(ctx: &Ctx, doc: &ReplayDoc) {
         "C13" => c13::replay_one(ctx, doc),
         "C08" | "C09" | "C10" => envelope_props::replay_one(ctx, doc),
         "C11" => c11::replay_one(ctx, doc),
+        "C04" | "C07" | "C15" | "C16" => model_props::replay_one(ctx, doc),
         "C20" => c20::replay_one(ctx, doc),
         p => ctx.infra_error(format!("unknown property '{}' in replay file", p)),
     }
